@@ -46,7 +46,7 @@ def mandatory_bins(tier):
     b += ["key_trailing_zero_%d" % z for z in (1, 2, 3, 15)]
     b += ["crc_lo_00:cust", "crc_hi_00:cust", "crc_both_00:cust", "crc_lo_00:update", "crc_hi_00:update", "crc_both_00:update",
           "decryptors_all", "decryptors_single", "decryptors_partial", "pass_through_block", "encrypted_config_component", "customer_key_present", "customer_key_absent",
-          "version_00", "version_ff", "version_80", "code_all_zero", "code_ends_00", "config_blob_trailing_zero_padding", "key_all_zero", "ecc_distractor_decryptors_before_the_matching_one", "ecc_distractor_encryptors_on_write", "second_write_after_replacing_a_block_of_the_same_kind", "foreign_blocks_of_unknown_kind", "session_key_contains_customer_key", "file_name_instead_of_stream", "read_with_mac_check_off", "update_block_attributes_reassigned", "stream_positioned_after_other_content", "constructed_without_block_list_then_add_auth_block", "encryptors_given_as_tuple", "encryptors_given_as_deque", "encryptors_given_as_dict_values", "several_encrypted_components", "write_and_read_by_concurrent_threads", "one_ecc_decryptor_object_shared_by_reading_threads"]
+          "version_00", "version_ff", "version_80", "code_all_zero", "code_ends_00", "config_blob_trailing_zero_padding", "key_all_zero", "ecc_distractor_decryptors_before_the_matching_one", "ecc_distractor_encryptors_on_write", "second_write_after_replacing_a_block_of_the_same_kind", "foreign_blocks_of_unknown_kind", "session_key_contains_customer_key", "file_name_instead_of_stream", "read_with_mac_check_off", "update_block_attributes_reassigned", "stream_positioned_after_other_content", "constructed_without_block_list_then_add_auth_block", "encryptors_given_as_tuple", "encryptors_given_as_deque", "encryptors_given_as_dict_values", "several_encrypted_components", "write_and_read_by_concurrent_threads", "one_ecc_decryptor_object_shared_by_reading_threads", "session_key_buffer_refilled_in_place_between_two_writes"]
     return b
 
 
@@ -152,6 +152,52 @@ def check_case(ns, ctx, case, conf, key, specs, subsets):
         if path:
             os.unlink(path)
     _second_write(ns, ctx, B, f, specs, case, key, wenc, rp)
+    if not has_ecc and GB.openable(specs) and (key[2] + len(case.comps)) % 3 == 0:
+        _key_buffer_history(ns, ctx, B, specs, case, key, rp)
+
+
+def _key_buffer_history(ns, ctx, B, specs, case, key, rp):
+    """history: the session key lives in a buffer the caller refills in place (bytearray) between two writes of the SAME file object;
+    each written file is a file under the key that was in the buffer when it was written"""
+    kb = bytearray(key)
+    k2 = bytes((b ^ 0xA5) for b in key)
+    try:
+        f = B.Bec2File(G.build_real(ns, case), GB.real_auth_blocks(ns, specs), kb)
+        wenc = GB.write_encryptors(ns, specs)
+        b1 = io.StringIO()
+        f.write_file(b1, wenc)
+    except TypeError as e:
+        ctx.exc(e)
+        ctx.note("session_key_in_a_bytearray_refused")
+        return
+    except Exception as e:
+        if any(len(c.desc_bytes()) > 210 for c in case.comps):
+            return
+        ctx.violation("writer_raises_on_object_in_domain", {"exc": fmt_exc(e), "session_key": "bytearray"}, rp)
+        return
+    ctx.ev()
+    ctx.bin("session_key_buffer_refilled_in_place_between_two_writes")
+    kb[:] = k2
+    try:
+        b2 = io.StringIO()
+        f.write_file(b2, wenc)
+        ctx.mon("write_file")
+    except Exception as e:
+        ctx.violation("writer_raises_on_object_in_domain", {"exc": fmt_exc(e), "session_key": "bytearray refilled in place, second write"}, rp)
+        return
+    for n, (text, want) in enumerate(((b1.getvalue(), key), (b2.getvalue(), k2))):
+        try:
+            back = B.Bec2File.read_file(io.StringIO(text), GB.read_encryptors(ns, specs), True)
+            ctx.mon("read_file")
+        except Exception as e:
+            ctx.violation("reader_rejects_file_written_by_writer:key_buffer_refilled_between_writes", {"exc": fmt_exc(e), "write_number": n + 1}, rp)
+            return
+        d = G.diff_file(back.bf3file, case)
+        if bytes(back.session_key) != want:
+            d.append("session_key")
+        if d:
+            ctx.violation("read_back_differs:key_buffer_refilled_between_writes", {"diff": d, "write_number": n + 1}, rp)
+            return
 
 
 def _check_reads(ns, ctx, B, specs, subsets, key, text, path, has_ecc, distractors, mcase, rp):
